@@ -45,7 +45,7 @@ class VStr(V):
 
     def concrete(self):
         t = z3.simplify(self.term)
-        return t.as_string() if z3.is_string_value(t) else None
+        return T.zstr(t) if z3.is_string_value(t) else None
 
     def __repr__(self):
         return f"Str({self.term})"
